@@ -57,6 +57,26 @@ Round 4 (classes e-j of ROUND4_BRIEF.md):
                         timestep != minutes per step (multi-environment sub-hourly files), len(period) vs days vs
                         months as chunk sizes, leap vs common year across 29 Feb with several environments, J vs kWh
                         per column; the oracle shares no code with sql.py (direct SELECTs + stdlib calendar).
+Round 5 (class: a test on a text field that is WIDER or NARROWER than the statement's, applied at one site only -
+here the unit: "joules converted to kWh, everything else untouched" means exactly the database unit `J`):
+  sites that decide by the unit: header label of data_collections_by_output_name (per row), of
+    data_collections_by_output_name_run_period (first row), of available_outputs_info; the conversion flags
+    `to_kwh` (all-periods query, per column) and the `units == 'kWh'` choice between the two partition helpers
+    (run-period query); _data_type_from_unit (empty unit, table membership, generic fall-back).
+  generator: the unit universe (`pick_unit`): plain J; the units EnergyPlus writes; EVERY unit of the ladybug table
+    (TABLE_UNITS, written down by hand; 'kWh' itself stays outside by the stated assumption); the joule / kWh family of
+    the table (J/kg, J/kg-K, J/m3-K, kJ, MJ, GJ, Wh, kWh/m2, kWh/kg, ...: caught by a prefix, substring, suffix or
+    "is energy" test); units ladybug does not know, with look-alikes of J, kWh, '' and of table units (J/m2, 'J ', ' J',
+    j, mJ, kwh, KWH, kWh/m3, ' ', '-', c, w, PA, 'W/', ...: caught by prefix / strip / case-insensitive tests).
+    `unit_class` names the classes; each class x method is a counted stratum (branch:unitclass:<method>:<class>,
+    oracle:unitclass:<op>:<class>).  Fixed databases 16-18 hold the family next to plain J (hourly with design day,
+    daily+monthly in a leap year with stored halves, sub-hourly under the label 'HVAC System Timestep').
+  oracle: label == database unit unless it is exactly J; values bit-equal unless exactly J; the data type is the
+    table type of the DATABASE unit (`unit_type`), a generic type named after the output for an unknown unit - in
+    both queries and in available_outputs_info; one run period == slice of all now also on class, name, unit and
+    data type; the frequency label 'HVAC System Timestep' (spec key `tslabel`) for the text tests on the label.
+  Lean: C19_relabel_iff, C19_label_untouched, C19_dtype_by_database_unit, C19_converted_iff (an iff: no wider, no
+    narrower class), C19_joule_prefix_untouched (every "J" ++ s), C19_joule_family_untouched, C19_unit_sites_agree.
 Genuine defect found by op `alias`: known_findings.d/C19.json (C19-metadata-shared-across-run-periods), repair
 proposed as fixes/C19_metadata_per_collection.patch (quiet with and without it).
 """
@@ -101,6 +121,10 @@ RULE = ('synthetic EnergyPlus databases (tables ReportDataDictionary, ReportData
         'str subclass / generator / iterator / map / set / dict (the undocumented ones: refused or right), run-period '
         'index as text / float; name lists reversed, duplicated, with the literal Surface; unusual but legal text '
         'in names and keys; every branch of the anchored functions is a counted stratum (branch:*). '
+        'Round 5: units drawn from the whole unit universe - plain J, every unit of the ladybug table, the joule / '
+        'kWh family (J/kg, J/kg-K, J/m3-K, kJ, MJ, Wh, kWh/m2 ...), units ladybug does not know and look-alikes of '
+        'J, kWh and the empty unit (prefix, suffix, case, blanks) - each class x method a counted stratum; the '
+        'sub-hourly label HVAC System Timestep next to Zone Timestep. '
         'A case is non-trivial when the implementation returns a value; distinct = distinct (op, input).')
 TRUSTED_BASE = [
     'modelled, not verified: sqlite3 (WHERE = filter in rowid order, ORDER BY TimeIndex = stable sort, '
@@ -149,6 +173,58 @@ FREQ_LABEL = {'ts': 'Zone Timestep', 'hourly': 'Hourly', 'daily': 'Daily', 'mont
 FREQ_TYPE = {'ts': -1, 'hourly': 1, 'daily': 2, 'monthly': 3, 'run': 4, 'annual': 5}
 STEPS = [1, 2, 3, 4, 5, 6, 10, 12, 15, 20, 30, 60]
 UNITS_POOL = ['J', 'J', 'J', 'C', 'W', '%', '', 'ach', 'W/m2', 'm3/s', 'kg/s', 'Pa', 'lux', 'hr', 'ppm', 'W/m2-K']
+# Round 5: the unit universe.  The base data types of ladybug and their unit abbreviations, written down by
+# hand (the oracle's table; independent of ladybug.datatype.UNITS at run time - the correspondence op `dtype`
+# compares the real table with the model's copy on every run).
+TABLE_UNITS = {
+    'VolumetricHeatCapacity': ['J/m3-K', 'Btu/ft3-F', 'kWh/m3-K', 'kBtu/ft3-F', 'kJ/m3-K', 'MJ/m3-K'],
+    'Time': ['hr', 'min', 'sec', 'day'],
+    'Conductivity': ['W/m-K', 'Btu/h-ft-F', 'cal/s-cm-C'],
+    'Fraction': ['fraction', '%', 'tenths', 'thousandths', 'okta'],
+    'SpecificHeatCapacity': ['J/kg-K', 'Btu/lb-F', 'kWh/kg-K', 'kBtu/lb-F', 'kJ/kg-K'],
+    'TemperatureTime': ['degC-days', 'degF-days', 'degC-hours', 'degF-hours'],
+    'TemperatureDelta': ['dC', 'dF', 'dK'],
+    'EnergyIntensity': ['kWh/m2', 'kBtu/ft2', 'Wh/m2', 'Btu/ft2', 'kWh/ft2', 'kBtu/m2'],
+    'Energy': ['kWh', 'kBtu', 'Wh', 'Btu', 'MMBtu', 'J', 'kJ', 'MJ', 'GJ', 'therm', 'cal', 'kcal'],
+    'Conductance': ['W/K', 'Btu/h-F'],
+    'Temperature': ['C', 'F', 'K'],
+    'Luminance': ['cd/m2', 'cd/ft2'],
+    'Density': ['kg/m3', 'lb/ft3', 'g/cm3', 'oz/in3'],
+    'Distance': ['m', 'ft', 'mm', 'in', 'km', 'mi', 'cm'],
+    'Speed': ['m/s', 'mph', 'km/h', 'knot', 'ft/s', 'ft/min'],
+    'SpecificEnergy': ['kWh/kg', 'kBtu/lb', 'Wh/kg', 'Btu/lb', 'J/kg', 'kJ/kg'],
+    'UValue': ['W/m2-K', 'Btu/h-ft2-F'],
+    'Mass': ['kg', 'lb', 'g', 'tonne', 'ton', 'oz'],
+    'MassFlowRate': ['kg/s', 'lb/s', 'g/s', 'oz/s'],
+    'Volume': ['m3', 'ft3', 'mm3', 'in3', 'km3', 'mi3', 'L', 'mL', 'gal', 'fl oz'],
+    'ThermalCondition': ['condition', 'PMV'],
+    'EnergyFlux': ['W/m2', 'Btu/h-ft2', 'kW/m2', 'kBtu/h-ft2', 'W/ft2', 'met'],
+    'Power': ['W', 'Btu/h', 'kW', 'kBtu/h', 'TR', 'hp'],
+    'VolumeFlowRateIntensity': ['m3/s-m2', 'ft3/s-ft2', 'L/s-m2', 'cfm/ft2', 'L/h-m2', 'gph/ft2'],
+    'Resistance': ['K/W', 'F-h/Btu'],
+    'Current': ['A', 'mA'],
+    'Pressure': ['Pa', 'inHg', 'atm', 'bar', 'Torr', 'psi', 'inH2O'],
+    'Illuminance': ['lux', 'fc'],
+    'Resistivity': ['K-m/W', 'F-ft-h/Btu'],
+    'VolumeFlowRate': ['m3/s', 'ft3/s', 'L/s', 'cfm', 'gpm', 'mL/s', 'fl oz/s', 'L/h', 'gph'],
+    'Voltage': ['V', 'kV'],
+    'RValue': ['K-m2/W', 'F-ft2-h/Btu', 'clo', 'm2-K/W', 'h-ft2-F/Btu'],
+    'Angle': ['degrees', 'radians'],
+    'Area': ['m2', 'ft2', 'mm2', 'in2', 'km2', 'mi2', 'cm2', 'ha', 'acre'],
+}
+# 'kWh' as a DATABASE unit is outside the stated assumptions (EnergyPlus reports energy in J; see ASSUMPTIONS)
+KNOWN_UNITS = sorted(u for us in TABLE_UNITS.values() for u in us if u != 'kWh')
+# the joule / kWh family of the table: units that a test wider than `== 'J'` (prefix, substring, suffix, case,
+# "is an energy unit") would catch as well
+JOULE_FAMILY = ['J/kg', 'J/kg-K', 'J/m3-K', 'kJ', 'MJ', 'GJ', 'kJ/kg', 'kJ/kg-K', 'kJ/m3-K', 'MJ/m3-K',
+                'Wh', 'kWh/m2', 'kWh/kg', 'kWh/kg-K', 'kWh/m3-K', 'kWh/ft2', 'Wh/m2', 'Wh/kg', 'cal', 'kcal', 'Btu']
+# units ladybug does not know (GenericType named after the output, label and values untouched): what EnergyPlus
+# writes besides the table, and look-alikes of 'J', 'kWh', '' and of table units (extended, cut, other case, blanks)
+ENERGYPLUS_UNKNOWN = ['ach', 'ppm', 'kgWater/kgDryAir', 'deltaC', 'W/W', 'rad', 'deg', 'lum/W', 'kg/kg', 'kgWater/s',
+                      'kg/m2', 'W/m3', 'm3/m3', 'rev/min', 'N-s/m2', '$', 'kg-H2O/kg-air', 'ohms']
+LOOKALIKE_UNITS = ['J/m2', 'J/s', 'J/K', 'J/kgWater', 'J/m3', 'J/J', 'Jx', 'J ', ' J', 'j', 'JJ', 'mJ', 'W-J', 'm3/J',
+                   'kwh', 'KWH', 'kWh ', 'kWh/m3', 'kWh/K', 'kWhx', 'xkWh', 'Joule', 'joules',
+                   ' ', '-', 'None', 'unitless', 'Fraction', 'c', 'w', 'Cx', 'C ', 'W/', 'k', 'deg C', 'PA', 'Hr']
 NAMES_POOL = ['Zone Lights Electric Energy', 'Zone Mean Radiant Temperature', 'Surface Inside Face Temperature',
               'Zone Air Relative Humidity', 'Electricity:Facility', 'Zone Infiltration Current Density Volume Flow Rate',
               'Site Outdoor Air Drybulb Temperature', 'Surface Window Heat Gain Energy', 'Zone People Occupant Count']
@@ -181,6 +257,13 @@ def _month_len(year, month):
     return calendar.monthrange(year if year else 2017, month)[1]
 
 
+def freq_label(spec, freq):
+    """ReportingFrequency text of a dictionary row: EnergyPlus has two labels for sub-hourly data."""
+    if freq == 'ts' and spec.get('tslabel'):
+        return spec['tslabel']
+    return FREQ_LABEL[freq]
+
+
 def build_rows(spec):
     """Rows of a database described by `spec` (EnergyPlus order).  Pure stdlib."""
     year = spec['year']
@@ -189,7 +272,7 @@ def build_rows(spec):
     dict_rows = []
     for name, group, units, freq, keys in spec['outputs']:
         for idx, key in keys:
-            dict_rows.append((idx, group, key, name, FREQ_LABEL[freq], units, freq))
+            dict_rows.append((idx, group, key, name, freq_label(spec, freq), units, freq))
     dict_rows.sort()
     time_rows = []      # (idx, year, month, day, hour, minute, interval, itype, simdays, env)
     data_rows = []      # (timeidx, dictidx, value)
@@ -413,6 +496,52 @@ def _norm_ws(s):
 # generators
 
 
+_UNIT_TO_TYPE = {u: t for t, us in TABLE_UNITS.items() for u in us}
+assert not [u for u in ENERGYPLUS_UNKNOWN + LOOKALIKE_UNITS if u in _UNIT_TO_TYPE or u == '']
+
+
+def unit_type(u):
+    """Name of the ladybug base data type the statement's `data type from unit` gives the DATABASE unit `u`
+    (J is energy, '' a fraction, a table unit its type), or None: a unit ladybug does not know."""
+    return 'Fraction' if u == '' else _UNIT_TO_TYPE.get(u)
+
+
+def unit_class(u):
+    """The class of a database unit with respect to the one unit-dependent rule of the statement (`J` is
+    converted and relabelled, everything else untouched)."""
+    if u == 'J':
+        return 'J'
+    if u == '':
+        return 'empty'
+    known = u in _UNIT_TO_TYPE
+    if u.startswith('J'):
+        return 'joule_prefix_known' if known else 'joule_prefix_unknown'
+    if 'J' in u or 'j' in u.lower():
+        return 'joule_inside_known' if known else 'joule_inside_unknown'
+    if 'kwh' in u.lower() or u.startswith('Wh'):
+        return 'kwh_family_known' if known else 'kwh_family_unknown'
+    if known:
+        return 'energy_other' if _UNIT_TO_TYPE[u] in ('Energy', 'SpecificEnergy', 'EnergyIntensity') else 'table'
+    return 'unknown'
+
+
+def pick_unit(rng):
+    """A database unit: plain J often; the units EnergyPlus writes; every table unit; the joule / kWh family;
+    units ladybug does not know, look-alikes of the special ones included."""
+    r = rng.random()
+    if r < 0.22:
+        return 'J'
+    if r < 0.47:
+        return rng.choice(UNITS_POOL[3:])
+    if r < 0.62:
+        return rng.choice(JOULE_FAMILY)
+    if r < 0.77:
+        return rng.choice(KNOWN_UNITS)
+    if r < 0.9:
+        return rng.choice(LOOKALIKE_UNITS)
+    return rng.choice(ENERGYPLUS_UNKNOWN)
+
+
 def gen_spec(rng, family=None, big=False):
     """A random database description.  family: 'single' (one frequency in the Time table), 'mixed1'
     (several frequencies, one environment), 'mixedN' (several frequencies, several environments)."""
@@ -492,7 +621,7 @@ def gen_spec(rng, family=None, big=False):
     slots = []
     for name in names:
         freq = rng.choice(freqs)
-        units = rng.choice(UNITS_POOL)
+        units = pick_unit(rng)
         group = rng.choice(GROUPS_POOL)
         nkeys = rng.choice([1, 1, 2, 3, 3, 5, 7 if big else 4])
         slots.append([name, group, units, freq, nkeys])
@@ -522,6 +651,8 @@ def gen_spec(rng, family=None, big=False):
         outputs.append([s[0], s[1], s[2], s[3], ks])
     spec = {'year': year, 'steps': steps, 'freqs': freqs, 'envs': envs, 'outputs': outputs,
             'idseed': rng.randrange(10 ** 6), 'family': family}
+    if 'ts' in freqs and rng.random() < 0.2:
+        spec['tslabel'] = 'HVAC System Timestep'       # the other sub-hourly label EnergyPlus writes
     if rng.random() < 0.25:
         spec['idbase'] = 0
     r = rng.random()
@@ -655,6 +786,47 @@ def fixed_specs():
                           out('Zone Lights Electric Energy ', 'W', 'hourly', [[8, 'ZONE_1'], [10, 'ZONE_2']]),
                           out('zone lights electric energy', 'C', 'hourly', [[11, 'ZONE_1']]),
                           out('Zone  Lights Electric Energy', 'J', 'hourly', [[12, 'zone_1'], [13, 'ZONE_1 ']])]})
+    # --- round 5: the unit universe.  Compound joule units, joule multiples and kWh-based units of the table,
+    # and joule look-alikes ladybug does not know, next to plain J: only plain J is converted and relabelled
+    S.append({'year': 2017, 'steps': 6, 'freqs': ['hourly'], 'envs': [[1, 'dd', 7, 21, 1], [2, 'rp', 1, 5, 2]],
+              'outputs': [out('System Node Specific Enthalpy', 'J/kg', 'hourly', [[5, 'NODE_1'], [6, 'NODE_2']], 'System'),
+                          out('Zone Lights Electric Energy', 'J', 'hourly', k2),
+                          out('System Node Specific Heat', 'J/kg-K', 'hourly', [[11, 'NODE_1']], 'System'),
+                          out('Material Volumetric Heat Capacity', 'J/m3-K', 'hourly', [[12, 'WALL_1'], [13, 'WALL_2']]),
+                          out('Zone Heat Gain Density', 'J/m2', 'hourly', [[14, 'ZONE_1'], [15, 'ZONE_2']]),
+                          out('Plant Loop Energy', 'kJ', 'hourly', [[16, 'PLANT']], 'System'),
+                          out('Site Energy Intensity', 'kWh/m2', 'hourly', [[17, 'SITE'], [18, 'SITE 2']])]})
+    S.append({'year': 2016, 'steps': 6, 'freqs': ['daily', 'monthly'], 'envs': [[3, 'rp', 2, 27, 4], [4, 'rp', 7, 1, 3]],
+              'valmode': 'frac',
+              'outputs': [out('System Node Specific Enthalpy', 'J/kg', 'daily', k2, 'System'),
+                          out('Zone Blank Joule', 'J ', 'daily', [[8, 'ZONE_1'], [10, 'ZONE_2']]),
+                          out('Zone Small Joule', 'j', 'monthly', [[11, 'ZONE_1'], [12, 'ZONE_2']]),
+                          out('Plant Watt Hours', 'Wh', 'monthly', [[13, 'PLANT']], 'System'),
+                          out('Node Specific Energy', 'kWh/kg', 'daily', [[14, 'NODE_1']], 'System'),
+                          out('Zone Lights Electric Energy', 'J', 'daily', [[15, 'ZONE_1'], [16, 'ZONE_2']]),
+                          out('Plant Mega Joules', 'MJ', 'monthly', [[17, 'PLANT'], [18, 'PLANT 2']], 'System')]})
+    # the other sub-hourly label of EnergyPlus ('HVAC System Timestep'): every text test on the frequency label
+    # must treat it like 'Zone Timestep'
+    S.append({'year': 2019, 'steps': 4, 'freqs': ['ts'], 'envs': [[1, 'dd', 1, 21, 1], [2, 'rp', 3, 1, 1]],
+              'tslabel': 'HVAC System Timestep',
+              'outputs': [out('System Node Specific Enthalpy', 'J/kg', 'ts', [[5, 'NODE_1'], [6, 'NODE_2']], 'System'),
+                          out('Zone Lights Electric Energy', 'J', 'ts', k2)]})
+    # BOTH sub-daily interval types (-1 zone timestep, 1 hourly) in one file with several environments: the Time
+    # rows of types <= 1 that _extract_all_run_period scans belong to two frequencies (counting them is wrong,
+    # their first / last days are right)
+    S.append({'year': 2017, 'steps': 4, 'freqs': ['ts', 'hourly'],
+              'envs': [[1, 'dd', 7, 21, 1], [2, 'dd', 1, 21, 1], [3, 'rp', 2, 27, 3]],
+              'outputs': [out('Zone Lights Electric Energy', 'J', 'hourly', k2),
+                          out('Zone Mean Radiant Temperature', 'C', 'ts', [[8, 'ZONE_1'], [10, 'ZONE_2'], [11, 'ZONE_3']]),
+                          out('Site Outdoor Air Drybulb Temperature', 'C', 'hourly', [[12, 'Environment']])]})
+    # a run period over the New Year NEXT TO other environments (the all-periods query rebuilds every period from
+    # the Time rows in time order: first and last row, not the calendar-first and calendar-last day)
+    S.append({'year': 2017, 'steps': 2, 'freqs': ['hourly', 'daily'], 'envs': [[1, 'dd', 7, 21, 1], [2, 'rp', 12, 30, 4]],
+              'outputs': [out('Zone Lights Electric Energy', 'J', 'hourly', k2),
+                          out('Zone Mean Radiant Temperature', 'C', 'daily', [[8, 'ZONE_1'], [10, 'ZONE_2']])]})
+    S.append({'year': 2018, 'steps': 6, 'freqs': ['daily', 'monthly'], 'envs': [[1, 'rp', 12, 1, 62], [2, 'rp', 7, 1, 3]],
+              'outputs': [out('Zone Lights Electric Energy', 'J', 'monthly', k2),
+                          out('Zone Mean Radiant Temperature', 'C', 'daily', [[8, 'ZONE_1'], [10, 'ZONE_2']])]})
     for i, s in enumerate(S):
         s['idseed'] = 100 + i
         s['family'] = 'fixed'
@@ -721,6 +893,8 @@ database description and the request; see _branches):
   _extract_all_run_period: extract_all:monthly | extract_all:daily | extract_all:subdaily;
     extract_all:new_period_monthly_reset | extract_all:new_period_reset (always with all:mult)
   _data_type_from_unit: dtype:fraction | dtype:table | dtype:generic
+  unit tests (`!= 'J'` x3, `== 'kWh'` x3): unitclass:<method>:<J | empty | joule_prefix_(un)known |
+    joule_inside_(un)known | kwh_family_(un)known | energy_other | table | unknown>
   _partition_*_chunks / _accumulate / _partition_timeseries: straight-line loops; empty data, ragged tails and
     zero chunks are op part/partc strata (`part:ragged`, `partc:periods=0`).
 Unreachable through the public API: `_partition_and_convert_timeseries_chunks` (no caller; compared as a static
@@ -759,7 +933,8 @@ def _branches(spec, q, method, env=None):
                    'extract_rp:leap' if calendar.isleap(spec['year']) else 'extract_rp:common_year')
     units = [r[1][2] for r in sel]
     for u in set(units):
-        out.append('dtype:fraction' if u == '' else 'dtype:table' if UNIT_TYPE.get(u, 0) else 'dtype:generic')
+        out.append('dtype:fraction' if u == '' else 'dtype:table' if unit_type(u) else 'dtype:generic')
+        out.append('unitclass:%s:%s' % (method, unit_class(u)))
     cls = {'ts': 'int_timestep', 'hourly': 'int_timestep', 'daily': 'daily', 'monthly': 'monthly'}.get(f0, 'annual')
     out.append('class:' + cls)
     if isinstance(q, str):
@@ -858,6 +1033,7 @@ def correspondence(ctx):
     for k in sorted(ladybug.datatype.UNITS):
         units += list(ladybug.datatype.UNITS[k])
     units += ['ach', 'ppm', 'J ', 'j', 'kwh', 'W/m3', 'Unknown Unit', 'deltaC', 'kgWater/kgDryAir']
+    units += [u for u in ENERGYPLUS_UNKNOWN + LOOKALIKE_UNITS + KNOWN_UNITS if u not in units]
     uc = [(u, rng.choice(NAMES_POOL)) for u in units]
 
     def impl_dtype(c):
@@ -1166,7 +1342,7 @@ def _hist_correspondence(ctx, specs):
     for (s, steps, head), mo in zip(cases, outs):
         msteps = mo.split(' ;; ')
         obj = SQLiteResult(db_for(s)['path'])
-        labels = sorted(set(FREQ_LABEL[o[3]] for o in s['outputs']))
+        labels = sorted(set(freq_label(s, o[3]) for o in s['outputs']))
         allowed = ['ok rf steps %d' % s['steps'] if 'Timestep' in l else 'ok rf label ' + enc(l) for l in labels]
         ctx.compared += 1
         ctx.count('op:hist')
@@ -1288,7 +1464,7 @@ def _describe(coll):
                        bool(a.is_leap_year)),
             'values': list(coll.values),
             'dts': None if kind == 'HourlyContinuous' else [int(x) for x in coll.datetimes],
-            'dtype': type(h.data_type).__name__}
+            'dtype': type(h.data_type).__name__, 'dtype_name': getattr(h.data_type, 'name', None)}
 
 
 def _close(a, b, exact):
@@ -1327,6 +1503,16 @@ def _cmp_colls(got, want, single_env=False):
             return 'unit', 'unit %r, want %r (%s/%s)' % (g['unit'], w['unit'], w['name'], w['key'])
         if w['units'] == 'J' and g['dtype'] != 'Energy':
             return 'unit', 'data type %s for J' % g['dtype']
+        if w['units'] == '' and g['unit'] not in ('', 'fraction'):
+            return 'unit', 'unit %r for an output without unit (%s/%s)' % (g['unit'], w['name'], w['key'])
+        # the data type follows the DATABASE unit alone (only plain J becomes another unit): a table unit has
+        # its base type, a unit ladybug does not know a generic type named after the output
+        t = unit_type(w['units'])
+        if t is not None and g['dtype'] != t:
+            return 'unit', 'data type %s for unit %r, want %s (%s/%s)' % (g['dtype'], w['units'], t, w['name'], w['key'])
+        if t is None and (g['dtype'] != 'GenericType' or g.get('dtype_name') != w['name']):
+            return 'unit', 'data type %s (%s) for the unknown unit %r, want a generic type named %r' % (
+                g['dtype'], g.get('dtype_name'), w['units'], w['name'])
         if not _close(g['values'], w['values'], exact=w['units'] != 'J'):
             return 'values', 'values of %s/%s env %s: got %s..., want %s...' % (
                 w['name'], w['key'], w['env'], g['values'][:4], w['values'][:4])
@@ -1375,6 +1561,7 @@ def _facts(src, groups, order, names):
                     if (a0[2] != a[2]) or (it != 3 and a0[3] != a[3]) or (b0[2], b0[3]) != (b[2], b[3]):
                         differ = True
     return {'multi_env': nenv > 1, 'single_key': nkeys == 1, 'mixed_units': len(units) > 1,
+            'unit_classes': '+'.join(sorted(set(unit_class(u) for u in units))),
             'mixed_time_table': ntypes > 1, 'feb29_boundary': feb29, 'annual': annual,
             'env_ends_differ_by_frequency': differ}
 
@@ -1541,7 +1728,7 @@ def _check_read(path, attr, fail):
         want = []
         for t in tuples:
             unit = 'kWh' if t[2] == 'J' else ('fraction' if t[2] == '' else t[2])
-            want.append((t[0], t[1], unit, UNIT_TYPE.get(t[2], '?')))
+            want.append((t[0], t[1], unit, unit_type(t[2])))
         gl = []
         for d in got:
             dt = d.get('data_type')
@@ -1883,6 +2070,12 @@ def check_case(op, inp):
                             return fail('slice', 'one run period == slice of all',
                                         'slice of all has %d collections, run-period query %d (or other data)'
                                         % (len(sl), len(got)), freq=f, method='run_period')
+                        lab = lambda d: (d['key'], d['name'], d['cls'], d['unit'], d['dtype'], d.get('dtype_name'))
+                        if [lab(d) for d in sl] != [lab(d) for d in got]:
+                            return fail('slice', 'one run period == slice of all (class, unit and data type too)',
+                                        'slice of all is labelled %s, the run-period answer %s'
+                                        % ([lab(d) for d in sl][:2], [lab(d) for d in got][:2]), freq=f,
+                                        method='run_period', unit_class=unit_class(want[0]['units']))
                 return None
             problems.append((f, r))
         f, (kind, detail) = problems[0]
@@ -2045,6 +2238,15 @@ def regression_cases():
         ('collections', {'db': F[15], 'q': ['Zone Lights Electric Energy ', 'Zone Lights Electric Energy']}),
         ('collections', {'db': F[14], 'q': [EXOTIC_NAMES[1], EXOTIC_NAMES[0]]}),
         ('values', {'db': F[14], 'q': [EXOTIC_NAMES[2], EXOTIC_NAMES[1], EXOTIC_NAMES[0]], 'as_list': True}),
+        # round 5: name lists mixing plain J with compound joule units and joule look-alikes (per-column flags)
+        ('collections', {'db': F[16], 'q': [lights, 'System Node Specific Enthalpy']}),
+        ('collections', {'db': F[16], 'q': ['Zone Heat Gain Density', lights, 'Plant Loop Energy'], 'as_list': True}),
+        ('collections', {'db': F[16], 'q': ['Site Energy Intensity', 'Material Volumetric Heat Capacity',
+                                            'System Node Specific Heat']}),
+        ('collections', {'db': F[17], 'q': [lights, 'Zone Blank Joule', 'Node Specific Energy',
+                                            'System Node Specific Enthalpy']}),
+        ('collections', {'db': F[17], 'q': ['Plant Mega Joules', 'Zone Small Joule', 'Plant Watt Hours']}),
+        ('alias', {'db': F[16], 'q': 'System Node Specific Enthalpy', 'method': 'run_period', 'env': 2}),
     ]
 
 
@@ -2248,6 +2450,9 @@ def _oracle_cases(ctx):
                     ctx.count('shape:env=%s' % c1.get('env_as', 'int'))
                     cases.append(('run_period', c1))
             for op, inp in cases:
+                for o in s['outputs']:
+                    if o[0] in names:
+                        ctx.count('oracle:unitclass:%s:%s' % (op, unit_class(o[2])))
                 yield emit(op, inp, 0.25)
             # aliasing: answers kept, edited in place, asked again; a second object of the same file
             if rng.random() < 0.3:
@@ -2398,7 +2603,11 @@ LEVEL_TEXT = ('Machine-checked Lean 4 theorems over an executable model of sql.p
               'period, and all run periods of one answer carry one flag; the name argument is a membership test (name '
               'lists with the same members - other order, duplicates, any container - give the same rows, collections '
               'and values; a one-name list equals the name up to the Surface test); the three branches of the '
-              'time-table stage (single period / annual / all run periods) are stated as theorems. The model is compared with the real SQLiteResult on '
+              'time-table stage (single period / annual / all run periods) are stated as theorems. Round 5: the '
+              'unit rule acts on exactly the database unit J - relabel changes only J, every other unit (any text '
+              'starting with J included) keeps label and values, the conversion flag is set iff the unit is J (or, '
+              'outside the assumptions, kWh), the data type follows the database unit, and the all-periods and '
+              'run-period queries decide label and conversion alike for the rows of one output. The model is compared with the real SQLiteResult on '
               'synthetic EnergyPlus databases, the shipped files, the static helpers and on request histories '
               '(step by step) on every run; the oracle also re-runs slices of its stream in fresh Python processes '
               'in other orders.')
